@@ -997,7 +997,7 @@ def plan(prop, tier, seed, known):
             jobs.append({"name": "concmany%d" % i, "kind": "lin", "also": ["C10"],
                          "driver": ["conc", "-seed", str(seed * 100 + 60 + i), "-segs", "3" if q else "6", "-steps", "8", "-clients", str(2 + i % 2),
                                     "-avoid", av, "-many", "130"]})
-        jobs += design_jobs("Icache", ["Icache"], [], [("Icache_nodrop", "Coherent"), ("Icache_nowrite", "Coherent"), ("Icache_lookupfirst", "OneCopy")], q)
+        jobs += design_jobs("Icache", ["Icache"], [], [("Icache_nodrop", "Coherent"), ("Icache_nowrite", "Coherent"), ("Icache_lookupfirst", "OneCopy"), ("Icache_reuse", "Coherent")], q)
         # the per-directory name cache and the slot choice that depends on it
         jobs += design_jobs("DirCache", ["DirCache"], ["DirCache_big"], [("DirCache_keep", "Coherent"), ("DirCache_nodel", "Coherent")], q)
     elif prop == "C09":
@@ -1077,6 +1077,7 @@ def plan(prop, tier, seed, known):
             jobs.append({"name": "winrecycle%d" % k, "kind": "lin", "also": ["C08"], "driver": ["windows", "-part", "-2", "-parts", "7", "-seed", str(k)]})
         jobs += fsproto_jobs(q, "C03")
         jobs += design_jobs("Shrink", [], [], [("Shrink_norecheck", "NoStale")], q)   # getShrink not looking again after it has helped
+        jobs += design_jobs("Icache", ["Icache"], [], [("Icache_lookupfirst", "OneCopy"), ("Icache_reuse", "Coherent")], q)   # the inode cache under concurrency
         jobs += protoreplay_jobs(q, seed)
         jobs += commitwin_jobs(q)
         j = probe_job(prop, av)             # client requests against a file whose truncation the (parked) shrinker has not completed
